@@ -142,6 +142,27 @@ def _datafp(qp, x):
         return fingerprint(type(x).__name__, _desc(x))
 
 
+def _type_tree(x, depth=0):
+    """Nested class names of an operator expression (through .base / .operands / .obs)."""
+    out = [type(x).__name__]
+    if depth > 10:
+        return out
+    for attr in ("base", "obs"):
+        try:
+            v = getattr(x, attr, None)
+        except Exception:  # noqa: BLE001
+            v = None
+        if v is not None and hasattr(v, "wires"):
+            out.append(_type_tree(v, depth + 1))
+    try:
+        ops = getattr(x, "operands", None)
+    except Exception:  # noqa: BLE001
+        ops = None
+    if isinstance(ops, (list, tuple)):
+        out.append([_type_tree(o, depth + 1) for o in ops])
+    return out
+
+
 def _same_data(qp, a, b):
     """Harness-side check that two objects really carry identical data (same pytree leaves: shapes and bytes)."""
     try:
@@ -149,8 +170,8 @@ def _same_data(qp, a, b):
         lb, _ = qp.pytrees.flatten(b)
     except Exception:  # noqa: BLE001
         return True
-    if len(la) != len(lb):
-        return False
+    if len(la) != len(lb) or _type_tree(a) != _type_tree(b):
+        return False  # the round trip changed a (nested) class: C06's subject, not an identical-data pair
     for x, y in zip(la, lb):
         try:
             ax, ay = np.asarray(x), np.asarray(y)
